@@ -148,6 +148,43 @@ theorem C11_shutdown_releases (cfg : Cfg) (cap : Nat) (ops : List Op)
   have hheap := heap_empty_of_unreferenced h hnone (h.disabled hen)
   exact ⟨hheap, by simp [aliveApp, hdead, hheap]⟩
 
+/-! ## The request head's own pool (actix-http) -/
+
+/-- **C11_head_pool_fresh**: whatever heads the thread-local pool holds, and whichever fields the
+builder of the request leaves untouched, the head of a new `Request` is the one built from
+`RequestHead::default()` (holds for the code after the `fix:` commit to `RequestHead::clear`). -/
+theorem C11_head_pool_fresh (pool : List Head) (s : HeadSpec) :
+    buildHead (headGet headClear pool).1 s = buildHead Head.default s := by
+  cases pool with
+  | nil => rfl
+  | cons h t => cases h; rfl
+
+/- Full statement for the code BEFORE the fix (`RequestHead::clear` resetting only flags and
+headers) is false:
+   C11_head_pool_fresh_old (pool) (s) :
+     buildHead (headGet headClearOld pool).1 s = buildHead Head.default s
+It holds only for builders that overwrite every scalar field: -/
+theorem C11_head_pool_old_full_builders (pool : List Head) (s : HeadSpec)
+    (hm : s.method.isSome) (hu : s.uri.isSome) (hv : s.version.isSome) (hp : s.peer.isSome) :
+    buildHead (headGet headClearOld pool).1 s = buildHead Head.default s := by
+  obtain ⟨m, u, v, p, hs⟩ := s
+  cases m <;> cases u <;> cases v <;> cases p <;> simp_all
+  cases pool with
+  | nil => rfl
+  | cons h t => cases h; rfl
+
+/-- hypotheses of the partial statement are satisfiable: the h1 decoder + dispatcher write all -/
+example : (HeadSpec.mk (some "GET") (some "/x") (some "11") (some none) []).method.isSome := rfl
+
+/-- witness (defect F15, fixed): `actix_http::test::TestRequest::finish` sets method, uri, version
+and headers but not the peer address; with the old `clear`, a head recycled from a request that
+came from `127.0.0.1:1001` makes the new request appear to come from there -/
+theorem witness_stale_peer_before_fix :
+    (buildHead (headGet headClearOld [⟨"GET", "/u/1", "11", some 1001, []⟩]).1
+        ⟨some "GET", some "/u/3", some "11", none, []⟩).peer = some 1001 ∧
+    (buildHead Head.default ⟨some "GET", some "/u/3", some "11", none, []⟩).peer = none := by
+  decide
+
 /-! ## Refinement: recycling is unobservable -/
 
 /-- **C11_pool_transparent**: for every history, the outputs of *all* operations (every dump of
